@@ -138,9 +138,29 @@ Definition is_cancel (l : clabel) : bool := match l with LCancelBegin => true | 
 Definition count_next_true (os : list cobs) : Z :=
   fold_right (fun o acc => match o with ONext true _ => (1 + acc)%Z | _ => acc end) 0%Z os.
 
+(* The caller's cancel call had returned before the Next call that ended the iteration began, and no Close
+   call had begun when that call finished: nobody but this Next can have decided the terminal state, and its
+   deciding read of the caller's context came after the cancel.  Read off the labels alone, so it does not
+   depend on the model accepting the log.  [cancelled]: LCancelEnd seen; [closing]: a LCloseBegin seen;
+   [after]: the Next call in progress began after LCancelEnd. *)
+Fixpoint cancel_before_final_next (ls : list clabel) (cancelled closing after : bool) : bool :=
+  match ls with
+  | [] => false
+  | l :: t =>
+      match l with
+      | LCancelEnd => cancel_before_final_next t true closing after
+      | LCloseBegin _ => cancel_before_final_next t cancelled true after
+      | LNextSticky | LNextTerm | LNextPending | LNextWait => cancel_before_final_next t cancelled closing cancelled
+      | LFinish => after && negb closing
+      | _ => cancel_before_final_next t cancelled closing after
+      end
+  end.
+
 Definition ccase_violates (c : ccase) : bool :=
   let ops := cc_ops c in
   let os := flat_obs ops in
+  (* fixed code: a cancel that returned before the final Next began is reported (whatever kind of context the caller passed) *)
+  (cc_fx c && cancel_before_final_next (map fst ops) false false false && negb (terr_eqb (cc_err c) TCancel)) ||
   sticky_broken false os ||
   negb (all_same_err (errs_after_false false os ++ [cc_err c; cc_err_after_close c])) ||
   (* nil although a failure was recorded *)
@@ -249,7 +269,8 @@ Definition pcase_violates (c : pcase) : bool :=
 (* ------------------------------------------------------------------ slots *)
 Record scase := {
   sc_cap : nat; sc_workers : nat;
-  sc_calls : list (scall * option nat)   (* the call and, when nothing else was running, len(sem) right after it *)
+  sc_calls : list (scall * option nat);  (* the call and, when nothing else was running, len(sem) right after it *)
+  sc_end : nat                           (* len(sem) after every worker has called release *)
 }.
 
 Fixpoint sreplay (s : sem) (cs : list (scall * option nat)) : bool :=
@@ -263,8 +284,15 @@ Fixpoint sreplay (s : sem) (cs : list (scall * option nat)) : bool :=
   end.
 
 Definition scase_mismatch (c : scase) : bool := negb (sreplay (sinit (sc_cap c) (sc_workers c)) (sc_calls c)).
+
+(* every worker's release is among the calls (in order, after anything else that worker did) *)
+Definition all_released (c : scase) : bool :=
+  forallb (fun w => existsb (fun x => match fst x with CallRelease w' => (w =? w')%nat | _ => false end) (sc_calls c)) (seq 0 (sc_workers c)).
+
 Definition scase_violates (c : scase) : bool :=
-  existsb (fun x => match snd x with Some k => (sc_cap c <? k)%nat | None => false end) (sc_calls c).
+  existsb (fun x => match snd x with Some k => (sc_cap c <? k)%nat | None => false end) (sc_calls c) ||
+  (* C21: once every worker has released, the whole budget is available again *)
+  (all_released c && negb (sc_end c =? 0)%nat).
 
 (* ------------------------------------------------------------------ whole queries *)
 Record qobs := {
@@ -368,7 +396,33 @@ Definition q_violates (fx : bool) (q : qstate) (o : qobs) : list bool :=
     complete c && negb (Z.eqb (so_matched (qo_stats o)) (Z.of_nat (length (qo_returned o))))
   ].
 
+(* the labels of the world outside query q's pipeline, in log order *)
+Definition ext_labels (q : nat) (ls : list qlabel) : list clabel :=
+  flat_map (fun l => match l with LExt q' cl => if (q =? q')%nat then [cl] else [] | LAct _ _ _ => [] end) ls.
+
+(* per query, off the labels and the observed Err alone (see cancel_before_final_next) *)
+Definition late_cancel_missed (c : tcase) : bool :=
+  tc_fx c &&
+  existsb (fun io => cancel_before_final_next (ext_labels (fst io) (tc_labels c)) false false false &&
+                     negb (terr_eqb (qo_err (snd io)) TCancel))
+          (combine (seq 0 (length (tc_obs c))) (tc_obs c)).
+
+(* what can be judged on a query's observations alone, whether or not the model accepts the log *)
+Definition obs_violates (o : qobs) : bool :=
+  let st := so_blocks (qo_stats o) in
+  negb (qo_false_seen o) ||
+  negb (terr_eqb (qo_err o) (qo_err2 o)) ||
+  negb (nodup_sorted (sort_nat (qo_closes o))) ||
+  negb (list_eqb Nat.eqb (sort_nat (qo_closes o)) (seq 0 (qo_nopened o))) ||
+  negb (keys_nodup st) ||
+  negb (forallb skipped_zero st) ||
+  negb (totals_ok (qo_stats o)).
+
 Definition tcase_violates (c : tcase) : bool :=
+  late_cancel_missed c ||
+  existsb obs_violates (tc_obs c) ||
+  (* the budget is whole again once every query is over: decided on the observation, whatever the replay says *)
+  negb (tc_sem_end c =? 0)%nat ||
   match qsteps (tc_fx c) (ginit (tc_cap c) (tc_envs c)) (tc_labels c) with
   | None => false
   | Some s =>
